@@ -43,6 +43,9 @@ def run(spec):
             for m, okc, out in leanchecker([f'PikaVerif.Props.{pf}' for pf in pfs]):
                 if not okc:
                     audit['problems'].append(f'leanchecker {m}: {out}')
+    # property-specific extra obligations (e.g. a source scan); each problem breaks the proof side
+    for prob in spec.get('extra_obligations', lambda: [])():
+        audit['problems'].append(prob)
     proof_ok = ok_build and not audit['problems'] and audit['obligations'] == audit['discharged'] and audit['obligations'] > 0
 
     # 2. build the implementation side from /repo's working tree ------------------------
